@@ -19,6 +19,7 @@ type ecell struct {
 	want    string // "" for a blank cell and for a cell covered by a merged region
 	kind    string // storage kind of the input cell
 	covered bool   // input cell carries a value but lies inside a merged region, not at its top-left
+	raw     string // the stored value (differs from want only for covered cells)
 }
 
 type sheetExp struct {
@@ -70,6 +71,15 @@ func candidates(exp *sheetExp, act []acell, first bool) []off {
 	}
 	if exp.content {
 		add(off{exp.minR, exp.minC})
+		if !first {
+			// a later sheet of a stacked view: also try "below everything the view shows"
+			last := 0
+			for _, a := range act {
+				last = max(last, a.r)
+			}
+			add(off{exp.minR - (last + 2), 0})
+			add(off{exp.minR - (last + 2), exp.minC})
+		}
 	}
 	n := 0
 	for _, a := range act {
@@ -79,7 +89,7 @@ func candidates(exp *sheetExp, act []acell, first bool) []off {
 		n++
 		for i := range exp.cells {
 			e := &exp.cells[i]
-			if e.want != "" && norm(e.want) == norm(a.s) {
+			if e.raw != "" && norm(e.raw) == norm(a.s) { // incl. covered cells: only sharpens the diagnosis
 				add(off{e.r - a.r, e.c - a.c})
 			}
 		}
@@ -90,6 +100,28 @@ func candidates(exp *sheetExp, act []acell, first bool) []off {
 type mismatch struct {
 	class string // missing:<kind> | wrong:<kind> | covered-shown | extra-value | sheet-blocks-not-separated
 	text  string
+}
+
+// cost ranks readings that are all wrong, for the diagnosis only (a view passes iff some reading has
+// no mismatch at all): prefer the reading that explains an unexpected value as a covered cell of the
+// input over one that sees a value out of nowhere or a displaced value.
+func cost(mm []mismatch) int {
+	n := 0
+	for _, m := range mm {
+		switch {
+		case m.class == "covered-shown":
+			n += 2
+		case m.class == "extra-value":
+			n += 4
+		case m.class == "sheet-blocks-not-separated":
+			n += 1000
+		case strings.HasPrefix(m.class, "wrong:"):
+			n += 6
+		default:
+			n += 3
+		}
+	}
+	return n
 }
 
 // evaluate counts what is wrong when sheet k of the workbook is read at offset offs[k].
@@ -140,9 +172,7 @@ func evaluate(exps []*sheetExp, act []acell, idx map[[2]int]int, offs []off, seq
 			}
 			lo, hi := exp.minR-offs[k].r, exp.maxR-offs[k].r
 			if last > -1<<30 && lo < last+2 {
-				for i := 0; i < 1000; i++ { // makes such an assignment the last resort
-					mm = append(mm, mismatch{"sheet-blocks-not-separated", ""})
-				}
+				mm = append(mm, mismatch{"sheet-blocks-not-separated", fmt.Sprintf("the lines of sheet %s do not follow the previous sheet's lines after a blank line", exp.name)})
 			}
 			last = hi
 		}
@@ -182,7 +212,7 @@ func match(exps []*sheetExp, act []acell, fixed, sequential bool) ([]string, str
 			offs[k] = cands[k][pick[k]]
 		}
 		mm := evaluate(exps, act, idx, offs, sequential)
-		if bestOff == nil || len(mm) < len(best) {
+		if bestOff == nil || cost(mm) < cost(best) {
 			best, bestOff = mm, offs
 		}
 		if len(best) == 0 {
